@@ -85,6 +85,7 @@ fn main() {
         "C14" => drive(&props::backoff::C14, &opts),
         "C12" => drive(&props::hedge::C12, &opts),
         "C08" => drive(&props::budget::C08, &opts),
+        "C13" => drive(&props::adaptive::C13, &opts),
         "C02" => drive(&props::ratelimiter::C02, &opts),
         "C15" => drive(&props::ratelimiter::C15, &opts),
         _ => {
